@@ -596,7 +596,8 @@ func witnesses() []witness {
 	user := scen.TypeDef{Name: "user"}
 	dflt := func(u, t, r string) Req { return Req{User: u, Type: t, Rel: r, Chunk: 100, Procs: 3, Buf: 128} }
 	var out []witness
-	// F7 rswu_userset_leak (DESIGN.md section 8)
+	// former finding F7 rswu_userset_leak (DESIGN.md section 8), repaired by a279b76: kept as a
+	// regression scenario — sqlite must answer [doc:1] like memory, for all three engines
 	out = append(out, witness{&scen.Scenario{Shape: "witness-rswu_userset_leak", Types: []scen.TypeDef{user,
 		{Name: "group", Rels: []scen.RelDef{{Name: "member", RW: scen.This(), Restr: []scen.Restr{scen.RObj("user")}}}},
 		{Name: "doc", Rels: []scen.RelDef{{Name: "viewer", RW: scen.This(),
